@@ -133,18 +133,19 @@ func CommentState(l *lexer) stateFn {
 			}
 		}
 	} else {
-		//start with /*
+		//start with /*, skip it so that its '*' cannot close the comment
+		l.next()
+		l.next()
 		for {
-			r := l.next()
-			if r == '*' {
-				r = l.next()
-				if r == '/' {
-					l.ignore()
-					break
-				}
+			if strings.HasPrefix(l.input[l.end:], "*/") {
+				l.next()
+				l.next()
+				l.ignore()
+				break
 			}
-			if r == eof {
+			if r := l.next(); r == eof {
 				l.error("comment do not has */")
+				return nil
 			}
 			l.ignore()
 		}
